@@ -6,6 +6,7 @@ import (
 	"fmt"
 	"io"
 	"sync"
+	"testing/synctest"
 	"time"
 
 	"github.com/celestiaorg/go-libp2p-messenger/serde"
@@ -38,14 +39,26 @@ type netEnv struct {
 }
 
 func newNet(n int) (*netEnv, error) {
-	mn, err := mocknet.FullMeshLinked(n)
-	if err != nil {
-		return nil, err
+	// peers are generated unlinked: nothing can connect before connectAll, in particular not the
+	// Exchange's own bootstrap dial, which would race with its peer tracker subscribing to events
+	mn := mocknet.New()
+	e := &netEnv{mn: mn}
+	for i := 0; i < n; i++ {
+		h, err := mn.GenPeer()
+		if err != nil {
+			return nil, err
+		}
+		e.hosts = append(e.hosts, withDeadlines(h))
 	}
-	return &netEnv{mn: mn, hosts: mn.Hosts()}, nil
+	return e, nil
 }
 
-func (e *netEnv) connectAll() error { return e.mn.ConnectAllButSelf() }
+func (e *netEnv) connectAll() error {
+	if err := e.mn.LinkAll(); err != nil {
+		return err
+	}
+	return e.mn.ConnectAllButSelf()
+}
 
 func (e *netEnv) close() { _ = e.mn.Close() }
 
@@ -204,6 +217,9 @@ func newClient(h host.Host, trusted []peer.ID, chainID string, opts ...p2p.Optio
 	if err := ex.Start(context.Background()); err != nil {
 		return nil, err
 	}
+	// let the peer tracker subscribe to connectedness events before anybody connects
+	// (connections made between its initial listing and its subscription would go unnoticed)
+	synctest.Wait()
 	return ex, nil
 }
 
